@@ -153,7 +153,7 @@ def failing_record(res, chunk_lines):
     return dict(idx=idx, hid=hid, start=j, end=k, rec=rec, sig=sig)
 
 
-def validate_chunk(work, chunk, invs, mods, flags, name):
+def validate_chunk(work, chunk, invs, mods, flags, name, module="RelayTrace", cfg_text=None):
     """validate one chunk; returns list of failures (each with hid, sig), scanning past each failing history"""
     lines = open(chunk).readlines()
     fails = []
@@ -164,7 +164,7 @@ def validate_chunk(work, chunk, invs, mods, flags, name):
         part = chunk + ".part"
         with open(part, "w") as f:
             f.writelines(lines[offset:])
-        r = work.tlc(name, "RelayTrace", relay_cfg.trace_cfg(invs, mods, flags), workers=1, timeout=1800,
+        r = work.tlc(name, module, cfg_text or relay_cfg.trace_cfg(invs, mods, flags), workers=1, timeout=1800,
                      env=dict(VERIF_TRACE=part))
         if r.get("timeout"):
             raise Inconclusive("trace validation timed out")
